@@ -273,4 +273,275 @@ theorem listener_quiet {cfg : Cfg} {M : List Nat} {adr : Nat → Nat} {n : Nat} 
       refine ⟨by rw [f1]; exact h10.1, ?_⟩
       exact hnx (cfg.slot : Nat) h10.2 (by omega)
 
+theorem arrived_length (cfg : Cfg) (rs : List Transmission) (a : Int) : (arrived cfg rs a).length = arrivedLen cfg rs a := by
+  induction rs with
+  | nil => rfl
+  | cons t rs ih =>
+    rw [arrived_cons, arrivedLen_cons, List.length_append, ih, List.length_take]
+    have := cvis_le cfg t a
+    omega
+
+theorem arrivedLen_mono (cfg : Cfg) (rs : List Transmission) (a a' : Int) (h : a ≤ a') :
+    arrivedLen cfg rs a ≤ arrivedLen cfg rs a' := by
+  induction rs with
+  | nil => exact Nat.le_refl _
+  | cons t rs ih =>
+    rw [arrivedLen_cons, arrivedLen_cons]
+    have := cvis_mono cfg t a a' h
+    omega
+
+/-- The context the batch of a listener is folded over, in either mode. -/
+theorem listener_fold_ctx (st : Station) (now l : Int) (rx b' : Bytes) (d : List (Telegram × Bool)) (ret : Bool)
+    (idle : Bool) (hon : st.online = true) (hl : st.lastBusActivity = some l) (hlt : l < now)
+    (hnew : st.pendingBytes < rx.length) (hto : 0 < st.p.tokenLostTimeout) (hd : d ≠ [])
+    (hrec : receiveAll rx = .done b' d ret)
+    (hmode : if idle = true then ∃ np coll, st.st = .activeIdle none np coll else st.st = .checkTokenPass .first) :
+    ∃ c0, st.poll [] now false rx = foldTelegrams (idleF now) c0 d ∧ c0.tx = none ∧ c0.rx = b' ∧ c0.apps = [] ∧
+      c0.calls = [] ∧ c0.s.p = st.p ∧ c0.s.online = true ∧ (∃ np coll, c0.s.st = .activeIdle none np coll) ∧
+      c0.s.ring = st.ring ∧ c0.s.lastBusActivity = some now := by
+  obtain ⟨f1, f2, f3, f4, -⟩ := checkBA_fields st now rx.length
+  have hlast : (checkBusActivity st now rx.length).lastBusActivity = some now := by
+    rw [checkBA_last st now rx.length (by intro l' hl'; rw [hl] at hl'; cases hl'; exact hlt), if_pos hnew]
+  cases idle with
+  | true =>
+    simp only [if_true] at hmode
+    obtain ⟨np, coll, hs⟩ := hmode
+    refine ⟨_, idle_poll_batch st now rx b' d ret np coll l hon hs hl hlt (.inl hnew) hto hrec,
+      rfl, rfl, rfl, rfl, f2, by simp only; rw [f4]; exact hon, ⟨np, coll, by simp only; rw [f1]; exact hs⟩, f3, hlast⟩
+  | false =>
+    simp only [Bool.false_eq_true, if_false] at hmode
+    cases d with
+    | nil => exact absurd rfl hd
+    | cons x rest =>
+      refine ⟨_, check_poll_batch st now rx b' x rest ret .first l hon hmode hl hlt (.inl hnew) hrec,
+        rfl, rfl, rfl, rfl, f2, by simp only; rw [f4]; exact hon, ⟨none, 0, rfl⟩, f3, hlast⟩
+
+theorem eq_dropLast_append {α : Type} : ∀ (l : List α) (t : α), l.getLast? = some t → l = l.dropLast ++ [t] := by
+  intro l
+  induction l with
+  | nil => intro t h; cases h
+  | cons y ys ih =>
+    intro t h
+    cases ys with
+    | nil => simp at h; subst h; rfl
+    | cons z zs =>
+      rw [List.getLast?_cons_cons] at h
+      have := ih t h
+      rw [List.dropLast_cons₂, List.cons_append, ← this]
+
+theorem take_of_drop_nil {α : Type} (l : List α) (k : Nat) (h : l.drop k = []) : l.take k = l :=
+  List.take_of_length_le (List.drop_eq_nil_iff.1 h)
+
+theorem dropLast_of_append {α : Type} (r1 r2 : List α) (h : r2 ≠ []) : (r1 ++ r2).dropLast = r1 ++ r2.dropLast :=
+  List.dropLast_append_of_ne_nil h
+
+/-- **One poll of a listening station** (any lag, any batch). -/
+theorem listener_step {cfg : Cfg} {M : List Nat} {adr : Nat → Nat} {n : Nat} {b : Bus} {H Lo : Int} {j : Nat}
+    {st : NetStation} (hL : LOk cfg M adr b H Lo j st) (hok' : cfg.Ok) (hR : RingCfg M adr n)
+    (hlog : LogOk cfg M adr n b) (hj : j < n) (now : Int) (hsn : b.seen.getD j 0 < now) (hnowH : now ≤ H)
+    (hstart : ∀ t ∈ b.txs, t.start ≤ now)
+    (hH : ∀ t, b.txs.getLast? = some t → H ≤ cEnd cfg t + (cfg.gmax : Nat)) :
+    ListenOut cfg M adr b H Lo j st now := by
+  have hr := hok'.rate
+  obtain ⟨hokS, dn, rs, idle, l, h1, h2, h3, h4, h5, h0, h6, h7, h8, h9, h10⟩ := hL
+  by_cases hl : now ≤ l
+  · exact listener_ongoing ⟨hokS, dn, rs, idle, l, h1, h2, h3, h4, h5, h0, h6, h7, h8, h9, h10⟩ hR hlog hr hj now hsn
+      (fun l' hl' => by rw [h7] at hl'; cases hl'; exact hl)
+  have hl' : l < now := by omega
+  obtain ⟨inc, hd, hcat⟩ := listener_deliver hR hlog hr j now dn rs h1 h2 h3 (Int.le_of_lt hsn)
+  have hc := hlog.chained
+  rw [h1] at hc
+  have hcrs : CChained cfg rs := (List.pairwise_append.1 hc).2.1
+  have hw : ∀ t ∈ rs, t.bytes = (telOf t).wire ∧ (telOf t).Valid ∧ 0 < t.bytes.length := fun t ht =>
+    TxKind.wire hR (hlog.kinds t (by rw [h1]; exact List.mem_append_right _ ht))
+  obtain ⟨k, b', d, ret, hrec, hk, hdm, hfl, hfull, hb', hhead, hnil, hlastflag, hd0⟩ := consume cfg hr telOf rs now hcrs hw
+  by_cases hdn : d = []
+  · -- no complete telegram
+    have hk0 := hd0 hdn
+    subst hk0
+    simp only [List.drop_zero] at hb' hhead
+    subst hdn
+    rw [hb'] at hrec
+    exact listener_quiet hok' hR hlog hj now hokS dn rs idle l h1 h2 h3 h4 h5 h0 h7 h9 h10 hsn hl' hnowH hstart inc hd hcat ret
+      hrec (fun t rest hrs => ⟨(hhead t rest hrs).1, (hhead t rest hrs).2.2⟩)
+  -- at least one complete telegram: new bytes have arrived
+  have hmar := hok'.margin
+  have htto := hokS.tto
+  have hc0 := cfg.ce_pos hr 0
+  have hjl : j < b.seen.length := by rw [hlog.seen]; exact hj
+  have hphy := transmitting_listener cfg M adr n b hlog j l now h0 hl'
+  have hrx' : st.rx ++ inc = arrived cfg rs now := by rw [h4]; exact hcat
+  have hk1 : 1 ≤ k := by
+    cases k with
+    | zero =>
+      simp only [List.take_zero, List.map_nil, List.map_eq_nil_iff] at hdm
+      exact absurd hdm hdn
+    | succ k => omega
+  have hnew : st.s.pendingBytes < (arrived cfg rs now).length := by
+    cases rs with
+    | nil => simp only [List.length_nil] at hk; omega
+    | cons t0 rest =>
+      have hmem0 : t0 ∈ (t0 :: rest).take k := by
+        cases k with
+        | zero => omega
+        | succ k' => rw [List.take_succ_cons]; exact List.mem_cons_self ..
+      have hf0 := hfull t0 hmem0
+      have hlt0 := h6 t0 rest rfl
+      rw [arrived_length] at h5 ⊢
+      rw [arrivedLen_cons] at h5 ⊢
+      have := arrivedLen_mono cfg rest _ now (Int.le_of_lt hsn)
+      omega
+  have hmode : if idle = true then ∃ np coll, st.s.st = .activeIdle none np coll else st.s.st = .checkTokenPass .first := by
+    cases idle with
+    | true => simp only [if_true] at h10 ⊢; exact h10.1
+    | false => simp only [Bool.false_eq_true, if_false] at h10 ⊢; exact h10.1
+  obtain ⟨c0, hp0, c1, c2, c3, c4, c5, c6, c7, c8, c9⟩ := listener_fold_ctx st.s now l (arrived cfg rs now) b' d ret idle
+    hokS.son h7 hl' hnew (by unfold Cfg.gmax at htto; omega) hdn hrec hmode
+  have hme : c0.s.p.address = adr j := by rw [c5]; exact hokS.addr
+  have hv0 : RingView M (adr j) c0.s.ring := by rw [c8]; exact hokS.view
+  have hsplit : rs = rs.take k ++ rs.drop k := (List.take_append_drop _ _).symm
+  -- is the last consumed telegram the token for this station?
+  by_cases hacc : rs.drop k = [] ∧ ∃ t a, rs.getLast? = some t ∧ t.bytes = tokenBytes (adr j) a
+  · -- acceptance
+    obtain ⟨hdr, t, a, hlast, hbt⟩ := hacc
+    have hrsk : rs.take k = rs := take_of_drop_nil rs k hdr
+    have hbn : b' = [] := hnil hdr
+    obtain ⟨dpre, tg, hdpre⟩ := hlastflag hdn hbn
+    have hrsne : rs ≠ [] := by intro e; rw [e] at hlast; cases hlast
+    have hrs' : rs = rs.dropLast ++ [t] := by
+      exact eq_dropLast_append rs t hlast
+    -- the token comes from the predecessor
+    obtain ⟨i, hi, hsi, hbk | ⟨g, -, -, hbk⟩⟩ := hlog.kinds t (by rw [h1]; apply List.mem_append_right; rw [hrs']; simp)
+    · have hai := hR.lt i hi
+      have haj := hR.lt j hj
+      have hsm := hR.ring.bound _ (cycSucc_mem _ M (hR.mem i hi))
+      have ha256 : a < 256 ∨ True := .inr trivial
+      rw [hbk] at hbt
+      have hinj : cycSucc (adr i) M = adr j := by
+        unfold tokenBytes sendToken at hbt
+        simp only [List.cons.injEq, and_true, true_and] at hbt
+        have e1 := congrArg UInt8.toNat hbt.1
+        rw [u8n _ (by omega), u8n _ (by omega)] at e1
+        exact e1
+      have hpred : cycPred (adr j) M = adr i := by rw [← hinj]; exact hR.pred_succ _ (hR.mem i hi)
+      have htel : telOf t = Telegram.token (UInt8.ofNat (adr j)) (UInt8.ofNat (cycPred (adr j) M)) := by
+        rw [telOf_token t _ M hbk]; unfold tokTel; rw [hinj, hpred]
+      -- shape of the batch
+      rw [hrsk, hrs', List.map_append, hdpre, List.map_append] at hdm
+      simp only [List.map_cons, List.map_nil] at hdm
+      have hlen : (dpre.map Prod.fst).length = (rs.dropLast.map telOf).length := by
+        have := congrArg List.length hdm
+        simp only [List.length_append, List.length_map, List.length_cons, List.length_nil] at this ⊢
+        omega
+      obtain ⟨hdm1, hdm2⟩ := List.append_inj hdm hlen
+      have htg : tg = telOf t := by simpa using hdm2
+      have hfor : ∀ x ∈ dpre, Foreign M (adr j) x.1 := by
+        intro x hx
+        have : x.1 ∈ rs.dropLast.map telOf := by rw [← hdm1]; exact List.mem_map_of_mem hx
+        obtain ⟨t', ht', e⟩ := List.mem_map.1 this
+        rw [← e]
+        exact TxKind.foreign hR (hlog.kinds t' (by rw [h1]; exact List.mem_append_right _ (List.dropLast_subset _ ht'))) j hj
+          (h3 t' (List.dropLast_subset _ ht')) (h9 t' ht')
+      obtain ⟨c', hf', a1, a2, a3, a4, a5, a6, a7, a8, a9, a10⟩ := fold_accept M (adr j) now dpre c0 now hfor hme c7 hv0 c9
+        (Int.le_refl _) (by rw [hpred]; intro e; exact hR.two _ (hR.mem i hi) (by rw [hinj, e])) haj (by rw [hpred]; exact hai)
+      have hpoll : st.s.poll [] now false (arrived cfg rs now) = .ok c' := by
+        rw [hp0, hdpre, htg, htel]; exact hf'
+      have hokS' : StOkN cfg M (upSt st c') (adr j) :=
+        hokS.step now false _ c' hpoll (a5.trans c5) a8 (a6.trans c6)
+      refine ⟨inc, c', hd, by rw [hphy, hrx']; exact hpoll, a1.trans c1, .inr ⟨⟨t, a, ?_, hbt ▸ hbk ▸ rfl⟩, hokS', a7, a9, a10,
+        by rw [a2, c2, hbn], ?_⟩⟩
+      · rw [h1, List.getLast?_append, hlast]; rfl
+      · intro o ho
+        rw [h1] at ho
+        rcases List.mem_append.1 ho with ho | ho
+        · exact (h2 o ho).imp id (fun h => by omega)
+        · right
+          have hfo := hfull o (by rw [hrsk]; exact ho)
+          have hpo := (hw o ho).2.2
+          have := (cvis_spec cfg o now (o.bytes.length - 1) (by omega)).1 (by omega)
+          unfold cEnd; exact this
+    · exfalso
+      rw [hbk] at hbt
+      exact statusRequest_ne_token _ _ _ _ hbt
+  · -- everything consumed is merely overheard
+    have hfor : ∀ x ∈ d, Foreign M (adr j) x.1 := by
+      intro x hx
+      have : x.1 ∈ (rs.take k).map telOf := by rw [← hdm]; exact List.mem_map_of_mem hx
+      obtain ⟨t', ht', e⟩ := List.mem_map.1 this
+      rw [← e]
+      have hmem : t' ∈ rs := List.mem_of_mem_take ht'
+      refine TxKind.foreign hR (hlog.kinds t' (by rw [h1]; exact List.mem_append_right _ hmem)) j hj (h3 t' hmem) ?_
+      rcases mem_dropLast_or_last rs t' hmem with hdl | hlt
+      · exact h9 t' hdl
+      · intro a hbt
+        apply hacc
+        refine ⟨?_, t', a, hlt, hbt⟩
+        -- `t'` is the last of `rs` and was consumed, so nothing is left
+        apply Classical.byContradiction
+        intro hne
+        have hdl' : (rs.take k ++ rs.drop k).dropLast = rs.take k ++ (rs.drop k).dropLast := dropLast_of_append _ _ hne
+        rw [← hsplit] at hdl'
+        have hin : t' ∈ rs.dropLast := by rw [hdl']; exact List.mem_append_left _ ht'
+        -- a chained list has no duplicates: `t'` cannot be both in `dropLast` and last
+        obtain ⟨pre, hpre⟩ : ∃ pre, rs = pre ++ [t'] := ⟨rs.dropLast, eq_dropLast_append rs t' hlt⟩
+        rw [hpre, List.dropLast_concat] at hin
+        rw [hpre] at hcrs
+        have := (List.pairwise_append.1 hcrs).2.2 t' hin t' (by simp)
+        have hpo := (hw t' hmem).2.2
+        have := cfg.ce_pos hr (t'.bytes.length - 1)
+        omega
+    obtain ⟨c', hf', hh, hne', -⟩ := fold_foreign M (adr j) now d c0 now hfor hme c7 hv0 c9 (Int.le_refl _)
+    obtain ⟨hl1, hp1⟩ := hne' hdn
+    have hpoll : st.s.poll [] now false (arrived cfg rs now) = .ok c' := by rw [hp0]; exact hf'
+    have hokS' : StOkN cfg M (upSt st c') (adr j) :=
+      hokS.step now false _ c' hpoll (hh.p.trans c5) hh.view (hh.online.trans c6)
+    refine ⟨inc, c', hd, by rw [hphy, hrx']; exact hpoll, hh.tx.trans c1, .inl ⟨hokS', dn ++ rs.take k, rs.drop k, true, now, ?_⟩⟩
+    rw [getD_set_self b j now hjl]
+    unfold upSt
+    simp only
+    refine ⟨by rw [List.append_assoc, List.take_append_drop]; exact h1, ?_, fun t ht => h3 t (List.mem_of_mem_drop ht),
+      by rw [hh.rx, c2]; exact hb', by rw [hp1]; exact Nat.zero_le _, ?_, fun t rest hrs => (hhead t rest hrs).1, hl1,
+      .inl (Int.le_refl _), ?_, ?_⟩
+    · intro o ho
+      rcases List.mem_append.1 ho with ho | ho
+      · exact (h2 o ho).imp id (fun h => by omega)
+      · right
+        have hfo := hfull o ho
+        have hpo := (hw o (List.mem_of_mem_take ho)).2.2
+        have := (cvis_spec cfg o now (o.bytes.length - 1) (by omega)).1 (by omega)
+        unfold cEnd; exact this
+    · intro o ho hs; have := h0 o ho hs; omega
+    · intro t ht a
+      by_cases hne : rs.drop k = []
+      · rw [hne] at ht; cases ht
+      · have hdl' : (rs.take k ++ rs.drop k).dropLast = rs.take k ++ (rs.drop k).dropLast := dropLast_of_append _ _ hne
+        rw [← hsplit] at hdl'
+        exact h9 t (by rw [hdl']; exact List.mem_append_right _ ht) a
+    · simp only [if_true]
+      refine ⟨hh.st, ?_⟩
+      rw [hh.p, c5]
+      cases hdr : rs.drop k with
+      | nil =>
+        -- caught up: the last transmission of the log has arrived completely
+        unfold nextArr
+        simp only
+        have hrsk : rs.take k = rs := take_of_drop_nil rs k hdr
+        have hrsne : rs ≠ [] := by intro e; rw [e] at hk; simp only [List.length_nil] at hk; omega
+        obtain ⟨tl, htl⟩ : ∃ tl, rs.getLast? = some tl := by
+          cases hg : rs.getLast? with
+          | none => exact absurd (List.getLast?_eq_none_iff.1 hg) hrsne
+          | some tl => exact ⟨tl, rfl⟩
+        have hHb := hH tl (by rw [h1, List.getLast?_append, htl]; rfl)
+        have hmem : tl ∈ rs := List.mem_of_getLast? htl
+        have hfo := hfull tl (by rw [hrsk]; exact hmem)
+        have hpo := (hw tl hmem).2.2
+        have := (cvis_spec cfg tl now (tl.bytes.length - 1) (by omega)).1 (by omega)
+        unfold cEnd at hHb
+        omega
+      | cons t rest =>
+        have := nextArr_after cfg hr H t rest now (hhead t rest hdr).1
+          (hstart t (by rw [h1]; apply List.mem_append_right; apply List.mem_of_mem_drop (i := k); rw [hdr]; simp))
+        unfold Cfg.gmax at htto
+        omega
+
 end PV
